@@ -431,14 +431,18 @@ func (SignatureProofScheme) ValidateFinalizedProof(
 	}
 
 	k := int(binary.BigEndian.Uint16(mainKeyID[:2]))
-	if k > nKeys {
+	if k == 0 || k > nKeys {
 		// Invalid/corrupted key.
 		return nil, false
 	}
 
 	// Scratch combination index to reuse on every proof we process.
-	var combIndex big.Int
+	var combIndex, maxIndex big.Int
 	combIndex.SetBytes(mainKeyID[2:])
+	if binomialCoefficient(nKeys, k, &maxIndex); combIndex.Cmp(&maxIndex) >= 0 {
+		// Combination index out of range for (nKeys choose k).
+		return nil, false
+	}
 
 	// The bits indicating which keys in the original set have been used so far.
 	// This value is used throughout the rest loop.
@@ -507,8 +511,12 @@ func (SignatureProofScheme) ValidateFinalizedProof(
 		// First get the reduced key set.
 		reducedKeys, projections = createKeyProjection(proof.Keys, &usedOriginalBits)
 		// Then determine the bit set mapping this combination index into the reduced key set.
-		if k > len(reducedKeys) {
+		if k == 0 || k > len(reducedKeys) {
 			// Corrupt/invalid key ID.
+			return nil, false
+		}
+		if binomialCoefficient(len(reducedKeys), k, &maxIndex); combIndex.Cmp(&maxIndex) >= 0 {
+			// Combination index out of range.
 			return nil, false
 		}
 		decodeCombinationIndex(len(reducedKeys), k, &combIndex, &reducedProofBits)
